@@ -1067,7 +1067,62 @@ func (fr *Frame) pureMethodIdiom(st *State, m *types.Func, res []Term) {
 	fr.assumeIdiom(st, m.Type().(*types.Signature), res, ifaceMethodKey(m))
 }
 
+// simpleGetter: when recv is a box of a pointer to a module struct whose method of this name is a
+// plain field getter (`return r.f`), the result is the field's value in state st (the real method,
+// not an abstraction).
+func (vc *VC) simpleGetter(st *State, m *types.Func, recv Term, args []Term) ([]Term, bool) {
+	bi, ok := vc.boxes[recv]
+	if !ok || len(args) != 0 {
+		return nil, false
+	}
+	pt, ok := types.Unalias(bi.t).Underlying().(*types.Pointer)
+	if !ok || !isModuleType(bi.t) {
+		return nil, false
+	}
+	if _, isStruct := structOf(pt.Elem()); !isStruct {
+		return nil, false
+	}
+	sel := vc.P.Prog.MethodSets.MethodSet(bi.t).Lookup(m.Pkg(), m.Name())
+	if sel == nil {
+		return nil, false
+	}
+	fn := vc.P.Prog.MethodValue(sel)
+	if fn == nil || fn.Synthetic != "" || len(fn.Blocks) != 1 || len(fn.Params) != 1 {
+		return nil, false
+	}
+	var fa *ssa.FieldAddr
+	var ld *ssa.UnOp
+	for _, in := range fn.Blocks[0].Instrs {
+		switch x := in.(type) {
+		case *ssa.DebugRef:
+		case *ssa.FieldAddr:
+			if fa != nil || x.X != fn.Params[0] {
+				return nil, false
+			}
+			fa = x
+		case *ssa.UnOp:
+			if ld != nil || fa == nil || x.Op != token.MUL || x.X != fa {
+				return nil, false
+			}
+			ld = x
+		case *ssa.Return:
+			if ld == nil || len(x.Results) != 1 || x.Results[0] != ld {
+				return nil, false
+			}
+			ft := ld.Type()
+			addr := vc.fieldAddr(bi.inner, pt.Elem(), fa.Field)
+			return []Term{vc.loadT(st, addr, ft)}, true
+		default:
+			return nil, false
+		}
+	}
+	return nil, false
+}
+
 func (vc *VC) pureMethodTerms(st *State, m *types.Func, recv Term, args []Term) []Term {
+	if r, ok := vc.simpleGetter(st, m, recv, args); ok {
+		return r
+	}
 	sig := m.Type().(*types.Signature)
 	mkey := ifaceMethodKey(m)
 	sorts := []string{"Val", "Int"}
@@ -1075,7 +1130,13 @@ func (vc *VC) pureMethodTerms(st *State, m *types.Func, recv Term, args []Term) 
 		sorts = append(sorts, vc.sortOf(sig.Params().At(i).Type()))
 	}
 	var res []Term
-	all := append([]Term{recv, vc.osOfFacet(st, m.Name(), recv)}, args...)
+	osTerm := Term("0")
+	if org, imm := vc.C.Immutable[m.Name()]; imm {
+		vc.Assumed["getter "+m.Name()+"() of pluggable objects returns the same value throughout a request (immutable, "+org+")"] = true
+	} else {
+		osTerm = vc.osOfFacet(st, m.Name(), recv)
+	}
+	all := append([]Term{recv, osTerm}, args...)
 	_ = mkey
 	for i := 0; i < sig.Results().Len(); i++ {
 		rt := sig.Results().At(i).Type()
@@ -1115,6 +1176,18 @@ func (fr *Frame) dynamicCall(st *State, call ssa.CallInstruction, args []Term) [
 	}
 	vc.recordCallSyms("dyn:"+describe(c.Value, 0), sig, res)
 	fr.assumeIdiom(st, sig, res, "function value "+describe(c.Value, 0))
+	if ct := vc.C.Externs["dyn:"+describe(c.Value, 0)]; ct != nil && len(ct.Ensures) > 0 {
+		// assumed contract of the function values that may flow here (each in-repo source is
+		// checked against the same clauses under its own key; pluggable sources are assumptions)
+		vc.Assumed["assumed contract of function value "+describe(c.Value, 0)+" ("+ct.Origin+")"] = true
+		env := vc.callEnv(nil, sig, ct, args, st, nil, "ensures of "+ct.Key)
+		env.pkg = pkgOfFunc(fr.fn)
+		vc.bindResults(env, sig, res)
+		for _, cl := range ct.Ensures {
+			vc.sc.Assume(st.reach, env.boolTerm(cl.Expr))
+		}
+		vc.reportEnvErrors(env)
+	}
 	return res
 }
 
